@@ -241,6 +241,39 @@ func ruleProgressAffected(r *Report) {
 			}
 		}
 	}
+	if fn := r.need(rule, "M", "(*primaryGC).gc"); fn != nil {
+		// a file that was reaped is recorded as visited even when the time limit then ends the pass
+		key := "(*primaryGC).gc/reaped-file-recorded-before-time-check"
+		var marks []ssa.Instruction
+		eachInstrScope(fn, func(in ssa.Instruction) {
+			if mu, ok := in.(*ssa.MapUpdate); ok && isMapOfField(mu.Map, "primaryGC.visited") {
+				marks = append(marks, mu)
+			}
+		})
+		var allowed []Edge
+		for _, oc := range allCalls(fn) {
+			if cc := asCall(oc); cc != nil && cname(cc) != "(context.Context).Err" {
+				allowed = append(allowed, failureEdges(cc)...)
+			}
+		}
+		for _, rp := range callSites(fn, "(*mhprimary.primaryGC).reapRecords") {
+			c := asCall(rp)
+			if c == nil {
+				continue
+			}
+			bad := false
+			for _, se := range successEdges(c) {
+				se := se
+				if reach, path := (Search{Fn: fn, FromEdge: &se, Target: isReturn, Avoid: anyOf(instrSet(marks)), AvoidEdges: mkEdgeSet(allowed)}).Run(); reach {
+					bad = true
+					r.BadPath(rule, key, rp.Pos(), "after a file was reaped successfully the pass can end (time limit) without recording the file as visited: with a time limit shorter than one pass every cycle starts over at the same oldest file and never reaches the files behind it", path)
+				}
+			}
+			if !bad {
+				r.Ok(rule, key, rp.Pos(), "a reaped file is recorded as visited before the pass can end")
+			}
+		}
+	}
 	if fn := r.need(rule, "M", "deleteRecords"); fn != nil {
 		key := "deleteRecords/marked-files-recorded"
 		var affected *ssa.Parameter
@@ -310,6 +343,25 @@ func ruleProgressAffected(r *Report) {
 				}) {
 					okAll = false
 					r.Bad(rule, key, mu.Pos(), "the file number entered in the affected set is not the file number decoded from a freelist entry")
+				}
+			}
+			// the file entered is the one that was open while the counted records were marked: the
+			// loop-carried file number (decided before this iteration's entry was decoded), not the
+			// file number of the entry that causes the switch
+			for _, u := range updates {
+				mu := u.(*ssa.MapUpdate)
+				phi, isPhi := stripIntConv(mu.Key).(*ssa.Phi)
+				carried := false
+				if isPhi {
+					for _, lc := range callSites(fn, "mhprimary.localizePrimaryPos") {
+						if lc.Parent() == phi.Parent() && phi.Block().Dominates(lc.Block()) {
+							carried = true
+						}
+					}
+				}
+				if !carried {
+					okAll = false
+					r.Bad(rule, key, mu.Pos(), "the file number entered in the affected set is the one of the freelist entry being looked at, not the loop-carried number of the file that was open while the counted records were marked: on a file switch the marks are credited to the file being entered, the file just finished stays in the visited set and its freed space is never reclaimed")
 				}
 			}
 			if okAll {
@@ -1027,6 +1079,28 @@ func ruleProgressResume(r *Report) {
 	if n == 0 {
 		r.Bad(rule, key, fn.Pos(), "no time-limit branch behind the reap call")
 	}
+	// the resume request is consumed when it is honoured: the flag is cleared before the first file is
+	// reaped, so a pass that fails (the recorded file has meanwhile been removed) does not make every
+	// later pass start at the same missing file
+	var clear []*ssa.Store
+	for _, s := range flagStores {
+		if b, isC := boolConst(s.Val); isC && !b {
+			clear = append(clear, s)
+		}
+	}
+	flagTrue := flagEdges(fn, []string{"Index.gcResume"}, true)
+	if len(flagTrue) == 0 {
+		r.Bad(rule, "(*Index).gc/resume-consumed", fn.Pos(), "no test of the resume flag")
+	}
+	for _, ed := range flagTrue {
+		ed := ed
+		reach, path := Search{Fn: fn, FromEdge: &ed, Target: anyOf(instrSet(reaps)), Avoid: anyOf(instrSet(clear))}.Run()
+		if reach || len(clear) == 0 {
+			r.BadPath(rule, "(*Index).gc/resume-consumed", instrPos(lastInstr(ed.From)), "a resumed pass starts reaping without having cleared the resume flag: if that pass fails (the recorded file was removed by the free-file scan in the meantime) every later cycle resumes at the same missing file and fails the same way — record reaping never runs again", path)
+		} else {
+			r.Ok(rule, "(*Index).gc/resume-consumed", instrPos(lastInstr(ed.From)), "the resume flag is cleared before the resumed pass starts")
+		}
+	}
 	// the recorded position is where the next pass starts
 	if phi != nil {
 		used := false
@@ -1040,7 +1114,82 @@ func ruleProgressResume(r *Report) {
 		}
 		r.Check(used, rule, "(*Index).gc/resume-position-used", phi.Pos(), "a resumed pass starts at the recorded file", "the recorded resume position is never used as the start of the next pass")
 	}
-	r.Min(rule, 3)
+	r.Min(rule, 4)
+}
+
+// progress-timelimit: a time limit of 0 means "no limit". Every
+// context.WithTimeout whose duration is a configured limit (a parameter or a
+// captured variable, not a constant) is guarded by `limit != 0`; otherwise a
+// store opened with GCTimeLimit(0) runs every cycle under a context that has
+// already expired and never reclaims anything.
+func ruleProgressTimeLimit(r *Report) {
+	const rule = "progress-timelimit"
+	n := 0
+	for _, fn := range moduleFuncs(r.E) {
+		for _, c := range callSites(fn, "context.WithTimeout") {
+			if c.Parent() != fn {
+				continue
+			}
+			d := stripIntConv(c.Common().Args[1])
+			if _, isC := d.(*ssa.Const); isC {
+				continue
+			}
+			n++
+			r.fn(fn)
+			// the same value, or two loads of the same captured variable (a parameter of the enclosing
+			// function that the closure reads)
+			same := func(a, b ssa.Value) bool {
+				if sameValue(a, b) {
+					return true
+				}
+				la, ok1 := a.(*ssa.UnOp)
+				lb, ok2 := b.(*ssa.UnOp)
+				if !ok1 || !ok2 || la.Op != token.MUL || lb.Op != token.MUL || la.X != lb.X {
+					return false
+				}
+				if _, isFV := la.X.(*ssa.FreeVar); !isFV {
+					return false
+				}
+				if refs := la.X.Referrers(); refs != nil {
+					for _, rf := range *refs {
+						if st, isSt := rf.(*ssa.Store); isSt && st.Addr == la.X {
+							return false
+						}
+					}
+				}
+				return true
+			}
+			ev := condEdges(fn, func(cond ssa.Value) (bool, bool) {
+				bo, ok := cond.(*ssa.BinOp)
+				if !ok || (bo.Op != token.NEQ && bo.Op != token.EQL && bo.Op != token.GTR && bo.Op != token.LEQ) {
+					return false, false
+				}
+				if !(same(stripIntConv(bo.X), d) && isZeroConst(bo.Y)) {
+					if same(stripIntConv(bo.Y), d) && isZeroConst(bo.X) && (bo.Op == token.NEQ || bo.Op == token.EQL) {
+						return bo.Op == token.NEQ, bo.Op == token.EQL
+					}
+					return false, false
+				}
+				switch bo.Op {
+				case token.NEQ, token.GTR:
+					return true, false
+				default:
+					return false, true
+				}
+			})
+			ok, path := guarded(fn, c, mkEdgeSet(ev), nil)
+			root := fn
+			for root.Parent() != nil {
+				root = root.Parent()
+			}
+			if ok && len(ev) > 0 {
+				r.Ok(rule, shortFunc(root)+"/limit-zero-means-unlimited", c.Pos(), "the deadline is only set when the limit is not 0")
+			} else {
+				r.BadPath(rule, shortFunc(root)+"/limit-zero-means-unlimited", c.Pos(), "the cycle's deadline is set from the configured time limit without testing it against 0: with a limit of 0 (\"no limit\") every cycle runs under a context that has already expired, logs 'stopped at time limit', is rescheduled and never reclaims anything", path)
+			}
+		}
+	}
+	r.Min(rule, 2)
 }
 
 func init() {
@@ -1054,8 +1203,9 @@ func init() {
 		ruleProgressMark(r)
 		ruleProgressLowUse(r)
 		ruleProgressResume(r)
+		ruleProgressTimeLimit(r)
 		r.support([]string{"gc-flush-first", "togc", "freelist-consume", "entry-applied", "free-after-index", "gc-mark-guard", "scan-framing", "merge-framing", "span-pair",
-			"cancel-not-completion", "completion", "reap-true-means-empty", "bucket-scan-covers", "mark-file-matches", "scan-complete-before-truncate", "go-handshake", "config-wiring", "primary-mark"})
+			"cancel-not-completion", "completion", "reap-true-means-empty", "bucket-scan-covers", "mark-file-matches", "scan-complete-before-truncate", "go-handshake", "config-wiring", "primary-mark", "flush-nowork", "race", "handover-owners", "errors-not-dropped"})
 	},
 		"Decides only the SHAPE progress of the collectors rests on, each rule a necessary condition (if it is violated some history ending in files without live data is never reclaimed however many cycles run): the supervisors re-arm their timer after every finished cycle and every cycle calls the collector and signals completion; files in which the freelist pass marked records leave the visited set, and deleteRecords records every file it marked in; the three file loops start at the header's first file (or the resume point), advance by one file and pass over a file only for a stated reason (visited / still referenced / unreadable / already empty); an empty oldest file is unlinked in the same pass; zero-length files and files cut at offset 0 are reported empty; a completed scan that found a trailing free span truncates; unreferenced index records are marked in the same pass; relocation of the last live records is skipped only for the stated reasons and the low-use test has the form 100*free >= percent*(...); an index pass stopped by the time limit records and later uses its resume point. NOT decided: the number of cycles, byte counts, the fixed point, 'GC never increases storage', or that these shapes suffice for progress.")
 }
